@@ -12,6 +12,7 @@ package main
 import (
 	"fmt"
 	"math"
+	"os"
 	"reflect"
 	"regexp"
 	"strings"
@@ -569,6 +570,19 @@ func runSQL(c *lib.Ctx, cs caseT) {
 	s.MustExec(cs.Setup...)
 	res := s.Query(cs.SQL)
 	id := c.CaseNoModel(cs, cs.SQL)
+	if os.Getenv("C09_DEBUG") != "" {
+		fmt.Fprintf(os.Stderr, "Q: %s\n  err=%v panic=%q\n", cs.SQL, res.Err, res.Panic)
+		for _, col := range res.Schema {
+			fmt.Fprintf(os.Stderr, "  col %q type=%s nullable=%v\n", col.Name, col.Type, col.Nullable)
+		}
+		for _, row := range res.Rows {
+			fmt.Fprintf(os.Stderr, "  row")
+			for _, v := range row {
+				fmt.Fprintf(os.Stderr, " %T(%v)", v, v)
+			}
+			fmt.Fprintln(os.Stderr)
+		}
+	}
 	if res.Panic != "" {
 		c.Count("mix_panic")
 		c.PredChecked() // panics are C10's subject; no value was returned
